@@ -143,7 +143,9 @@ class Handler(BaseHTTPRequestHandler):
         if content_type is not None:
             self.send_header("Content-Type", content_type)
         for key, value in (then.get("headers") or {}).items():
-            self.send_header(key, value)
+            # a list value is sent as repeated header lines (e.g. several Set-Cookie)
+            for item in value if isinstance(value, list) else [value]:
+                self.send_header(key, item)
         self.send_header("Content-Length", str(len(payload)))
         self.end_headers()
         if self.command != "HEAD":
